@@ -75,8 +75,10 @@ func recacheAggregatorContext(ctx sdk.Context, agc *aggregator.AggregatorContext
 		return false
 	}
 	// #nosec G115
+	seedForcedSeal := false
 	if int64(h.Block) >= from {
 		from = int64(h.Block) + 1
+		seedForcedSeal = true
 	}
 
 	logger.Info("recacheAggregatorContext", "from", from, "to", to, "height", ctx.BlockHeight())
@@ -93,6 +95,7 @@ func recacheAggregatorContext(ctx sdk.Context, agc *aggregator.AggregatorContext
 	c.AddCache(cache.ItemV(validatorPowers))
 
 	recentMsgs := k.GetAllRecentMsgAsMap(ctx)
+	replayNonce := make(map[string]int32)
 	var p *types.Params
 	var b int64
 	if from >= to {
@@ -106,6 +109,12 @@ func recacheAggregatorContext(ctx sdk.Context, agc *aggregator.AggregatorContext
 		p = recentParamsMap[prev]
 		agc.SetParams(p)
 		setCommonParams(p)
+		if seedForcedSeal {
+			reseedForcedSeal(ctx, agc, h.Block)
+		}
+		// there is no block to replay, but the rounds as of the end of the previous block still
+		// have to be rebuilt, or every price transaction of the current block is refused
+		agc.PrepareRoundEndBlock(uint64(to - 1))
 	} else {
 		prev := int64(0)
 		for ; from < to; from++ {
@@ -120,16 +129,28 @@ func recacheAggregatorContext(ctx sdk.Context, agc *aggregator.AggregatorContext
 				}
 			}
 
+			if seedForcedSeal {
+				// only before the first replayed block, which directly follows the block that
+				// changed the validator set
+				seedForcedSeal = false
+				reseedForcedSeal(ctx, agc, h.Block)
+			}
 			agc.PrepareRoundEndBlock(uint64(from - 1))
 
 			if msgs := recentMsgs[from]; msgs != nil {
 				for _, msg := range msgs {
+					// the cached messages do not carry their nonce; give every replayed message of a
+					// validator for a feeder its own nonce, otherwise the per-round nonce filter drops
+					// all but the first one and the restarted node forgets reports the others remember
+					replayKey := msg.Validator + "/" + strconv.FormatUint(msg.FeederID, 10)
+					replayNonce[replayKey]++
 					// these messages are retreived for recache, just skip the validation check and fill the memory cache
 					//nolint
 					agc.FillPrice(&types.MsgCreatePrice{
 						Creator:  msg.Validator,
 						FeederID: msg.FeederID,
 						Prices:   msg.PSources,
+						Nonce:    replayNonce[replayKey],
 					})
 				}
 			}
@@ -149,6 +170,15 @@ func recacheAggregatorContext(ctx sdk.Context, agc *aggregator.AggregatorContext
 		agc.PrepareRoundEndBlock(uint64(to - 1))
 	}
 
+	// a round whose price has already been stored (it was finalized before the restart, possibly
+	// by messages that were dropped from the replay log when it sealed) must not be open again
+	for feederID, feeder := range agc.GetParams().TokenFeeders {
+		if feederID == 0 {
+			continue
+		}
+		agc.CloseRoundIfStored(uint64(feederID), k.GetNextRoundID(ctx, feeder.TokenID)) // #nosec G115
+	}
+
 	var pRet cache.ItemP
 	if updated := c.GetCache(&pRet); !updated {
 		c.AddCache(cache.ItemP(*p))
@@ -161,6 +191,18 @@ func recacheAggregatorContext(ctx sdk.Context, agc *aggregator.AggregatorContext
 	c.AddCache(cache.ItemP(*p))
 
 	return true
+}
+
+// reseedForcedSeal rebuilds the effect of the block in which the validator set last changed: all
+// rounds that were open at the end of the block before it were force-sealed in that block. Without
+// this a restarted node considers such rounds open (or, with nothing to replay, knows no round
+// at all) and diverges from the nodes that kept running.
+func reseedForcedSeal(ctx sdk.Context, agc *aggregator.AggregatorContext, validatorUpdateBlock uint64) {
+	if validatorUpdateBlock < 1 {
+		return
+	}
+	agc.PrepareRoundEndBlock(validatorUpdateBlock - 1)
+	agc.SealRound(ctx.WithBlockHeight(int64(validatorUpdateBlock)), true) // #nosec G115
 }
 
 func initAggregatorContext(ctx sdk.Context, agc *aggregator.AggregatorContext, k common.KeeperOracle, c *cache.Cache) {
